@@ -28,8 +28,8 @@ AllTrue(g)   == \A n \in DOMAIN g : g[n]
 FalseOnes(g) == {n \in DOMAIN g : ~g[n]}
 
 (* time: integer ticks of half a second; the code compares whole seconds    *)
-Sec       == 2
-Unix(x)   == x \div Sec
+(* s.sec = number of ticks in one second-granularity step (2 for half-second ticks; 1 when a tick is a whole number of seconds) *)
+Unix(s, x) == x \div s.sec
 
 ----------------------------------------------------------------------------
 (* Address classes.  Names starting with "bad:" are strings that do not     *)
@@ -66,7 +66,7 @@ Dev(s, d) == d \in DOMAIN s.devs
 ----------------------------------------------------------------------------
 (* Derived observations (query view)                                        *)
 IsFinalAt(s, b, o) ==      \* o is an output record of bridge b
-  Unix(s.now) >= Unix(o.t + s.cfg[K(b)].period)
+  Unix(s, s.now) >= Unix(s, o.t + s.cfg[K(b)].period)
 
 AllOutIdx(s, b) == {i \in 0..(s.nextOut[K(b)] + 2) : Has(s.outs[K(b)], K(i))}
 
@@ -377,8 +377,8 @@ Step(s, e) ==
 
 ----------------------------------------------------------------------------
 (* Initial state for a run: accounts x denoms grid; accounts in `funded` hold `amt0` units of every denom *)
-InitState(bridgeKeys, accts, denoms, funded, amt0, feeDenom, chans, cap, maxB, devs) ==
-  [ now |-> 0, h |-> 1, nextB |-> 1, fee |-> 0, feeDenom |-> feeDenom,
+InitStateSec(bridgeKeys, accts, denoms, funded, amt0, feeDenom, chans, cap, maxB, devs, sec) ==
+  [ now |-> 0, h |-> 1, sec |-> sec, nextB |-> 1, fee |-> 0, feeDenom |-> feeDenom,
     cap |-> cap, maxB |-> maxB, devs |-> [d \in devs |-> TRUE],
     cfg |-> EmptyMap,
     l1seq   |-> [k \in bridgeKeys |-> 1],
@@ -391,4 +391,5 @@ InitState(bridgeKeys, accts, denoms, funded, amt0, feeDenom, chans, cap, maxB, d
     bal   |-> [a \in accts |-> [d \in denoms |-> IF a \in funded THEN amt0 ELSE 0]],
     stray |-> EmptyMap,
     chan  |-> [c \in chans |-> [seq |-> 0, admin |-> ""]] ]
+InitState(bridgeKeys, accts, denoms, funded, amt0, feeDenom, chans, cap, maxB, devs) == InitStateSec(bridgeKeys, accts, denoms, funded, amt0, feeDenom, chans, cap, maxB, devs, 2)
 =============================================================================
